@@ -16,6 +16,7 @@ import (
 	"github.com/alttpo/snes/asm"
 	"github.com/alttpo/snes/color15"
 	"github.com/alttpo/snes/emulator"
+	"github.com/alttpo/snes/emulator/bus"
 	"github.com/alttpo/snes/emulator/cpu65c816"
 	"github.com/alttpo/snes/emulator/cpualt"
 	"github.com/alttpo/snes/mapping/util"
@@ -332,7 +333,7 @@ func sharedDigest() [4]uint64 {
 }
 
 func C18(r *vf.Run) {
-	r.Rule = "G goroutines (several G / GOMAXPROCS configurations), each owning its own emulator.System (tracing on), cpu65c816.CPU+bus.Bus, cpualt.CPU, asm.Emitter (listing, Clone/Append, Finalize), snes.ROM+Header (BusReader/BusWriter incl. the shared always-failing instance), and calling the eight mapping functions, RegionNames and the colour functions, under the Go race detector, preceded by a cold-start phase in which the first use of every object kind in the process happens on 8 goroutines at once; every actor's result digest is compared with the digest of the same workload run alone; the package-level state digest (hook) is compared before/after every configuration. A cell is a pair of operation kinds observed overlapping in time"
+	r.Rule = "G goroutines (several G / GOMAXPROCS configurations), each owning its own emulator.System (tracing on), cpu65c816.CPU+bus.Bus, cpualt.CPU, asm.Emitter (listing, Clone/Append, Finalize), snes.ROM+Header (BusReader/BusWriter incl. the shared always-failing instance), and calling the eight mapping functions, RegionNames and the colour functions, under the Go race detector, preceded by a cold-start phase in which the first use of every object kind in the process happens on 8 goroutines at once; and followed by 40+ separately created CPUs that are all inside their own program-counter callbacks at the same instant; every actor's result digest is compared with the digest of the same workload run alone; the package-level state digest (hook) is compared before/after every configuration. A cell is a pair of operation kinds observed overlapping in time"
 	r.Assume = []string{"built with -race by ./check (race reports are read from the GORACE log, the exit code is not trusted)", "sharing one instance between goroutines is not promised and not exercised", "a racy access on a path the workload never drives is not seen"}
 	raceEnabled := false
 	logPath := ""
@@ -360,6 +361,7 @@ func C18(r *vf.Run) {
 			maxG = c.g
 		}
 	}
+	rigLight = true // dozens of rigs alive at once; device routing is judged elsewhere
 	if !r.Phase("concurrent-instances") {
 		return
 	}
@@ -453,6 +455,120 @@ func C18(r *vf.Run) {
 			actors[i].over = [nKinds][nKinds]int64{}
 		}
 		r.Sample(map[string]interface{}{"goroutines": c.g, "gomaxprocs": c.procs, "rounds": c.rounds, "ops_per_round": c.ops, "digest_actor0": fmt.Sprintf("%016x", solo[0])})
+	}
+	// many CPUs inside their own program-counter callbacks at the same instant: each of G separately
+	// created CPUs runs a loop with two breakpoints; in the concurrent run the first callback of every
+	// CPU waits (bounded spin, no clock) until all G have arrived, so G callbacks are in progress at once
+	{
+		G := r.N(40, 96)
+		type cbActor struct {
+			c    cpu65c816.CPU
+			bus  *bus.Bus
+			bm   *mem.BusMem
+			img  *mem.Image
+			hits [2]int
+		}
+		mk := func(i int) *cbActor {
+			a := &cbActor{bm: &mem.BusMem{}}
+			b, _ := bus.New()
+			if err := b.Attach(a.bm, "all", 0, 0xFFFFFF); err != nil {
+				panic(err)
+			}
+			a.bus = b
+			return a
+		}
+		acts := make([]*cbActor, G)
+		for i := range acts {
+			acts[i] = mk(i)
+		}
+		seed := r.Rand("callbacks").U64()
+		var arrived int32
+		var incomplete int32
+		runOne := func(i int, rendezvous bool) uint64 {
+			a := acts[i]
+			g := vf.NewRng(seed ^ uint64(i+1)*0x9E3779B97F4A7C15)
+			st := genState(g)
+			st.E, st.K, st.PC, st.S = false, byte(1+i%100), 0x8000, 0x01FF
+			st.P &^= 0x08
+			img := mem.New(g.U64())
+			k := uint32(st.K) << 16
+			sled := 6 + g.Intn(10)
+			for j := 0; j < sled; j++ {
+				img.Ov[k|uint32(0x8000+j)] = []byte{0xEA, 0xE8, 0xC8, 0x1A}[g.Intn(4)]
+			}
+			img.Ov[k|uint32(0x8000+sled)] = 0x80
+			img.Ov[k|uint32(0x8000+sled+1)] = byte(0x100 - sled - 2)
+			img.NoRdSet = true
+			a.img, a.bm.M = img, img
+			tmp := &cpuRig{bus: a.bus}
+			tmp.loadPrim(st, false, g)
+			a.c = tmp.prim
+			c := &a.c
+			a.hits = [2]int{}
+			first := true
+			c.OnPC = map[uint32]func(){}
+			for h := 0; h < 2; h++ {
+				h := h
+				at := k | uint32(0x8000+g.Intn(sled))
+				c.OnPC[at] = func() {
+					a.hits[h]++
+					c.RAl ^= byte(0x11 * (h + 1))
+					if rendezvous && first {
+						first = false
+						atomic.AddInt32(&arrived, 1)
+						for spins := 0; atomic.LoadInt32(&arrived) < int32(G); spins++ {
+							if spins > 3000000 {
+								atomic.AddInt32(&incomplete, 1)
+								break
+							}
+							runtime.Gosched()
+						}
+					}
+				}
+			}
+			d := uint64(1469598103934665603)
+			for step := 0; step < 200; step++ {
+				cyc, stopped := c.Step()
+				d = mixDigest(d, byte(cyc))
+				if stopped {
+					break
+				}
+			}
+			c.OnPC = nil
+			d = mixState(d, absPrim(c))
+			d = mixU64(d, c.AllCycles)
+			d = mixU64(d, uint64(a.hits[0])<<32|uint64(a.hits[1]))
+			return d
+		}
+		solo := make([]uint64, G)
+		for i := range acts {
+			solo[i] = runOne(i, false)
+		}
+		conc := make([]uint64, G)
+		var wg sync.WaitGroup
+		for i := range acts {
+			wg.Add(1)
+			go func(i int) {
+				defer wg.Done()
+				conc[i] = runOne(i, true)
+			}(i)
+		}
+		wg.Wait()
+		bad := 0
+		for i := range acts {
+			if conc[i] != solo[i] {
+				bad++
+				if bad <= 3 {
+					r.Fail("result-differs-from-solo", fmt.Sprintf("CPU %d of %d, each inside its own OnPC callback at the same time: digest %016x, %016x alone (callback hits %v)", i, G, conc[i], solo[i], acts[i].hits), nil)
+				}
+			}
+		}
+		r.Eval(int64(2 * G))
+		if bad == 0 && atomic.LoadInt32(&incomplete) > 0 {
+			r.Inconclusive(fmt.Sprintf("only %d of %d CPUs reached their callbacks together", atomic.LoadInt32(&arrived), G))
+		} else {
+			r.CellN("callbacks-in-progress-at-once", int64(atomic.LoadInt32(&arrived)))
+		}
 	}
 	r.SetExtra("operations", totalOps)
 	r.SetExtra("instances_per_kind", maxG)
